@@ -313,6 +313,46 @@ def run(ctx):
                 break
         if badbr:
             break
+    # the N/Z/P table above is set_flags'; it only describes the machine if set_flags is the one place that writes the condition code,
+    # and if every CC-setting instruction hands it the very word it stores in DR
+    SF = RS + "::set_flags"
+    flag_writers = set()
+    for n_, f_ in prog.fns.items():
+        if f_.bkind != "fn" or not (n_.startswith("lace::") or n_.startswith("bin::")):
+            continue
+        for b_, i_, s_ in f_.assigns():
+            fl_ = [e_.get("n") for e_ in s_["p"].get("pr", []) if isinstance(e_, dict) and "f" in e_]
+            adts_ = [e_.get("adt") for e_ in s_["p"].get("pr", []) if isinstance(e_, dict) and "f" in e_]
+            if fl_ and fl_[-1] == "flag" and (adts_[-1] in (None, RS) or RS in [a_ for a_ in adts_ if a_]):
+                flag_writers.add(n_)
+    ctx.instance(1)
+    okw = flag_writers <= {SF}
+    ctx.oblig(okw, {"functions assigning RunState.flag": sorted(short(x) for x in flag_writers)}, "set_flags only")
+    if not okw:
+        extra = sorted(flag_writers - {SF})
+        ctx.violation("flag-writer|%s" % short(extra[0]), prog.fns[extra[0]].file_line(),
+                      "`%s` writes the condition code itself instead of going through set_flags: its N/Z/P decision is not the one decided above "
+                      "(e.g. taken from a widened intermediate result instead of the 16-bit word)" % short(extra[0]))
+    for i, h in enumerate(hs):
+        sp_ = spec["decode"][str(i)]
+        if sp_.get("unimplemented") or "flag" not in sp_.get("writes", []) or "reg" not in sp_.get("writes", []):
+            continue
+        f_ = prog.fns[h]
+        sfc = [(b_, t_) for b_, t_, c_ in f_.calls() if c_ == SF]
+        regw = [(b_, s_) for b_, i_, s_ in f_.assigns() if s_["p"].get("pr") and s_["p"]["pr"][0] == "*" and len(s_["p"]["pr"]) == 1
+                and any(c_ and c_.endswith("RunState::reg_mut") for c_ in kit.expr_calls(f_.expr({"k": "copy", "p": {"l": s_["p"]["l"]}}, 6)))]
+        ctx.instance(1)
+        okh = bool(sfc) and bool(regw)
+        detail = "?"
+        if okh:
+            vals = {expr_str(f_.expr(t_["args"][1], 10, stop={"named"}), 120) for b_, t_ in sfc}
+            stored = {expr_str(f_.rvalue_expr(s_["r"], 10, stop={"named"}), 120) for b_, s_ in regw}
+            okh = vals == stored and len(vals) == 1
+            detail = "set_flags(%s), DR := %s" % (sorted(vals), sorted(stored))
+        ctx.oblig(okh, {"opcode": sp_["name"], "flags from": detail}, "set_flags is called with the word stored in DR")
+        if not okh:
+            ctx.violation("flags-value|%s" % sp_["name"], f_.file_line(),
+                          "%s does not set the condition code from the word it stores in its destination register (%s)" % (sp_["name"], detail))
     ok = badbr is None
     ctx.oblig(ok, {"BR condition": [expr_str(c) for c in conds], "cells": 32}, "taken iff (cc & nzp) != 0 on all 4 x 8 (cc, nzp) pairs")
     if not ok:
